@@ -17,7 +17,7 @@ CHECKS = {
             "stated depth/branching) is encoded by the real variables API and compared byte for byte with an independent E5 encoder; the bytes "
             "are decoded into fresh and reused objects and at an offset, and position and value compared. Exhaustive over the stated family, "
             "small-scope outside it. Every character U+0000..U+02FF (+ katakana, yen, overline) as a one-character str for A and J must round "
-            "trip when accepted; a refused set()/decode() must leave the object unchanged. Thread-pair independence: every ordered pair of a small operation alphabet runs on two threads with separate objects under every schedule with <= 1 (2) delays where every source line of secsgem.secs.* is a scheduling point; each thread must get the result it gets alone.",
+            "trip when accepted; a refused set()/decode() must leave the object unchanged. Thread-pair independence: every ordered pair of a small operation alphabet runs on two threads with separate objects under every schedule with <= 1 (2) delays where every source line of secsgem.secs.* is a scheduling point; each thread must get the result it gets alone. First use: every ordered pair of two (thorough: three) operations as the first two operations of a pristine process - one forked child per execution, every schedule with <= 1 (thorough 2) delays at line granularity, lazy imports atomic - must give each thread the result the operation gives alone in a pristine process.",
             "Trusts /verif/ref/e5.py (written from the E5 format, no secsgem import) and Python's struct for IEEE-754; values outside the "
             "boundary families are covered only by the small-scope hypothesis.", "DESIGN.md 3/C01"),
     "C02": ("exploration", "enum", "bounded-exhaustive enumeration of reference-encoded (canonical and non-canonical) E5 items",
@@ -25,14 +25,14 @@ CHECKS = {
             "of every tree of the family, every finite float exponent x boundary mantissas, and every catalogue data item x every format "
             "code it allows; the real decoder's value, consumed length and canonical re-encoding are compared with the reference on each, into fresh objects and "
             "into objects that already decoded something else (typed, ANYVALUE, Array); all 256 byte values of a BOOLEAN item; an empty item of "
-            "every type followed by another item. Thread-pair independence: every ordered pair of a small operation alphabet runs on two threads with separate objects under every schedule with <= 1 (2) delays where every source line of secsgem.secs.* is a scheduling point; each thread must get the result it gets alone.",
+            "every type followed by another item. Thread-pair independence: every ordered pair of a small operation alphabet runs on two threads with separate objects under every schedule with <= 1 (2) delays where every source line of secsgem.secs.* is a scheduling point; each thread must get the result it gets alone. First use: every ordered pair of two (thorough: three) operations as the first two operations of a pristine process - one forked child per execution, every schedule with <= 1 (thorough 2) delays at line granularity, lazy imports atomic - must give each thread the result the operation gives alone in a pristine process.",
             "Trusts ref/e5.py; byte strings the reference decoder rejects are out of scope; JIS-8 only through the JIS8 class.",
             "DESIGN.md 3/C02"),
     "C14": ("exploration", "enum", "bounded-exhaustive input enumeration of the Item API against the reference codec and the variables API",
             "Every value of the C01 families is pushed through Item(value) in every constructor input form (value held, bytes equal to the "
             "reference and to the variables API), Item.decode over every assignment of length bytes (canonical re-encode, class, value), and "
             "Item.from_value over every integer at +-1 around every power of two up to 2^65 (after converting equal-valued floats/bools first) and "
-            "structured python values (narrowest type); the caller's list is changed after an ItemL was built from it. Thread-pair independence: every ordered pair of a small operation alphabet runs on two threads with separate objects under every schedule with <= 1 (2) delays where every source line of secsgem.secs.* is a scheduling point; each thread must get the result it gets alone.",
+            "structured python values (narrowest type); the caller's list is changed after an ItemL was built from it. Thread-pair independence: every ordered pair of a small operation alphabet runs on two threads with separate objects under every schedule with <= 1 (2) delays where every source line of secsgem.secs.* is a scheduling point; each thread must get the result it gets alone. First use: every ordered pair of two (thorough: three) operations as the first two operations of a pristine process - one forked child per execution, every schedule with <= 1 (thorough 2) delays at line granularity, lazy imports atomic - must give each thread the result the operation gives alone in a pristine process.",
             "Trusts ref/e5.py; floats excluded from the from_value type oracle (statement lists bool/int/str/bytes/list).", "DESIGN.md 3/C14"),
     "C05": ("model_checking", "vrt+hbfs", "explicit-state history BFS on the real HsmsProtocol + delay-bounded schedule exploration of the accept race",
             "Every history over a 22-event alphabet (connect, peer close, enable/disable, all control messages with matching/alien system "
@@ -92,7 +92,9 @@ CHECKS = {
             "S6F15 plus a trigger for every CEID of the domain must yield well-formed S6F16/S6F11 with exactly the linked reports in link "
             "order and current values (decoded by the reference codec). Seven configuration requests (dispatcher thread) are raced against "
             "trigger_collection_events([1, 2]) (application thread) under every schedule with <= 2 (3) delays at line granularity of the "
-            "capability: each event at most once, reports = configuration before or after, untouched events exactly once, no thread dies. (S2F33 with two delete-one entries is in the alphabet.)",
+            "capability: each event at most once, reports = configuration before or after, untouched events exactly once, no thread dies. (S2F33 with two delete-one entries is in the alphabet.) Text report ids with the digits of a numeric one "
+            "(define / delete / link) are in the alphabet; set_alarm / clear_alarm with AlarmsSet linked to the alarm's own collection event is explored under every "
+            "schedule with <= 2 (3) delays: the one S6F11 must show the alarm in its new state.",
             "Requests E5 leaves ambiguous are held to the integrity and transactional clauses only; small id domains (2 reports, 3 variables, 3 events).",
             "DESIGN.md 3/C12"),
     "C13": ("model_checking", "vrt+hbfs", "explicit-state history BFS with a plain-dict reference model and 49 queries per state + delay-bounded schedule exploration of S5F3 vs alarm change",
@@ -100,7 +102,7 @@ CHECKS = {
             "updates runs on a fresh real equipment handler; after every step S1F3/S1F11/S2F13/S2F29/S5F5/S5F7 with known, unknown, repeated, "
             "numeric and text id lists are sent and each reply is decoded by the reference codec and compared item by item (order, values, "
             "empty item for unknown ids, alarm set bit); S2F15 must be all-or-nothing and within limits; S5F1 exactly on changes of enabled alarms. S5F3 is raced against set_alarm / clear_alarm "
-            "under every schedule with <= 2 (3) delays at line granularity of the alarm capability.",
+            "under every schedule with <= 2 (3) delays at line granularity of the alarm capability. An id item holding two numbers must be answered as an unknown id (S1F3, S2F13).",
             "Clock excluded from value comparison; unknown ALIDs in S5F5 not in the alphabet; canonical state = every plain attribute of the alarm and constant objects.", "DESIGN.md 3/C13"),
     "C15": ("exploration", "enum", "bounded-exhaustive enumeration of items and of token strings against a reference SML recogniser",
             "Round trip Item.from_sml(item.to_sml()) over the C14 leaf families, all 256 single bytes and every string up to length 3 (4 thorough) "
@@ -163,7 +165,8 @@ CHECKS = {
             "the runtime. Level 2: the real TcpServerConnection/TcpClientConnection run over a virtual kernel; six enable/disable/connect/close/Separate.req "
             "scripts are explored under every schedule with <= K delays (every line of tcp_*connection.py is a scheduling point): enable()/disable() "
             "return, no socket is left open, a later enable() works. Four level-1 scenarios are also explored with <= 1 delay at every line of "
-            "ProtocolDispatcher and of the protocol's connect/disconnect handlers.",
+            "ProtocolDispatcher and of the protocol's connect/disconnect handlers. The kernel model keeps the listening port in TIME_WAIT after the endpoint closed an accepted "
+            "connection first (bind then needs SO_REUSEADDR set before it; checked against real loopback sockets by mc/vnet_conformance.py).",
             "The kernel is a model (mc/vnet.py); hangs are detected up to the step and virtual-time horizons; spin-waits via repeated backward jumps.",
             "DESIGN.md 3/C09"),
     "C10": ("fault_enumeration", "vrt+explore", "exhaustive enumeration of environment answers (short write / would-block / broken pipe / not writable) up to F deviations",
@@ -182,7 +185,8 @@ CHECKS = {
             "chunking deviations per execution, the all-single-bytes chunking (also paced: each chunk arrives while the receiver already waits), "
             "and one corrupted byte at every header/data/checksum position "
             "of a block are executed. Oracle: transcript grammar (ENQ, EOT, block, ACK|NAK), success => delivered once with identical header and "
-            "body, corrupted => NAK, not delivered, failure reported, following messages still pass, nothing hangs. Also: bodies that are exact "
+            "body, corrupted => NAK, not delivered, failure reported, following messages still pass, nothing hangs. Also: bodies of catalogued functions that are not "
+            "complete SECS-II items, bodies that are exact "
             "multiples of 244, a second sender thread on the same side (alternating blocks), a NAKed block against the sender's wake-up "
             "(<= K delays), two senders drawing their system bytes from the protocol's counter, and the same message sent again after a failed attempt.",
             "Only one side transmits at a time (the statement's assumption); length-byte corruption is a recorded known finding (no T1/T2).",
@@ -243,6 +247,10 @@ def main():
             {"name": "vrt+hbfs", "path": "/verif/mc/hbfs.py", "serves_properties": ["C05", "C07", "C08", "C11", "C12", "C13", "C18"],
              "kind_free_text": "explicit-state breadth-first search over event histories executed on fresh real objects, canonical-state "
                                "deduplication, reference-model oracle on every step"},
+            {"name": "vrt+pairs/firstuse", "path": "/verif/mc/firstuse.py", "serves_properties": ["C01", "C02", "C03", "C14", "C15", "C19"],
+             "kind_free_text": "delay-bounded schedule exploration of two threads running one operation each on separate objects at line granularity "
+                               "(mc/pairs.py, long-lived worker) and as the first two operations of a pristine process (mc/firstuse.py, one forked "
+                               "child per execution; C03/C15/C19 in the thorough tier only)"},
         ],
         "checks": checks,
         "not_applicable": [{"property_id": p, "reason": NOT_YET} for p in ALL if p not in CHECKS],
